@@ -140,8 +140,8 @@ def build_source(k, params, kind, group, pair_variant=None):
 
 class Tagger:
     def __init__(self):
-        self.sm = None
-        self.model = None
+        self.sm = object()
+        self.model = object()
 
     def tag(self, v):
         from statemachine.event import Event
